@@ -20,6 +20,9 @@ import (
 	"bytes"
 	"errors"
 	"io"
+	"slices"
+
+	"seehuhn.de/go/pdf/internal/limits"
 )
 
 // A Copier is used to copy objects from one PDF file to another. The Copier
@@ -213,15 +216,47 @@ func (c *Copier) CopyReference(obj Reference) (Reference, error) {
 	if ok {
 		return newRef, nil
 	}
-	newRef = c.w.Alloc()
-	c.trans[obj] = newRef
 
-	val, err := Resolve(c.r, obj)
-	if IsReadError(err) {
-		return 0, err
+	// Follow the chain of references hop by hop.  Every reference on the
+	// chain denotes the same object, so all of them are translated to the
+	// same target reference: an object reachable both through a chain and
+	// directly is copied only once.
+	chain := []Reference{obj}
+	var val Native
+	for cur := obj; ; {
+		next, err := c.r.Get(cur, true)
+		if IsReadError(err) {
+			return 0, err
+		}
+		if err != nil {
+			// a reference to a malformed or undefined source object
+			// resolves to null (PDF 2.0, 7.3.10); copy null in its place
+			break
+		}
+		ref, isReference := next.(Reference)
+		if !isReference {
+			val = next
+			break
+		}
+		if newRef, ok := c.trans[ref]; ok {
+			for _, r := range chain {
+				c.trans[r] = newRef
+			}
+			return newRef, nil
+		}
+		if slices.Contains(chain, ref) || len(chain) >= limits.MaxExtractDepth {
+			// a loop or an over-deep chain is malformed: null
+			break
+		}
+		chain = append(chain, ref)
+		cur = ref
 	}
-	// a reference to a malformed or undefined source object resolves to
-	// null (PDF 2.0, 7.3.10); leave val nil and copy null in its place
+
+	newRef = c.w.Alloc()
+	for _, r := range chain {
+		c.trans[r] = newRef
+	}
+
 	trans, err := c.Copy(val)
 	if err != nil {
 		return 0, err
